@@ -42,7 +42,7 @@ pub fn run_exec(cmd: &str, input: &str, env: &BTreeMap<String, String>, cwd: &st
     c.stdin(Stdio::piped()).stdout(Stdio::piped()).stderr(Stdio::piped());
     unsafe {
         c.pre_exec(|| {
-            let cpu = libc::rlimit { rlim_cur: 60, rlim_max: 60 };
+            let cpu = libc::rlimit { rlim_cur: 600, rlim_max: 600 };
             libc::setrlimit(libc::RLIMIT_CPU, &cpu);
             let mem = libc::rlimit { rlim_cur: 6 << 30, rlim_max: 6 << 30 };
             libc::setrlimit(libc::RLIMIT_AS, &mem);
@@ -71,7 +71,7 @@ pub fn run_exec(cmd: &str, input: &str, env: &BTreeMap<String, String>, cwd: &st
     let waiter = std::thread::spawn(move || {
         let _ = tx.send(child.wait_with_output());
     });
-    let limit = std::time::Duration::from_secs(std::env::var("MSIM_EXEC_WALL_S").ok().and_then(|v| v.parse().ok()).unwrap_or(300));
+    let limit = std::time::Duration::from_secs(std::env::var("MSIM_EXEC_WALL_S").ok().and_then(|v| v.parse().ok()).unwrap_or(900));
     let out = match rx.recv_timeout(limit) {
         Ok(o) => o.expect("wait"),
         Err(_) => {
